@@ -465,6 +465,14 @@ class Kit:
                             await asyncio.sleep(step[1])
                             kit.env.log("beat", id=desc["id"])
                             kit._section(desc)
+                    elif op == "spin-adopt":
+                        # keeps handing follow-up work to adopt(), on the loop's own thread
+                        number = 0
+                        while step[2] is None or number < step[2]:
+                            kit.submit(dict(step[1], id="%s-%d" % (step[1]["id"], number)),
+                                       "adopt")
+                            number += 1
+                            await asyncio.sleep(0)
                     elif op == "to-thread-call":
                         await asyncio.get_running_loop().run_in_executor(
                             None, lambda: kit.env.shared[step[1]](kit.env))
@@ -530,6 +538,13 @@ class Kit:
                             await trio.sleep(step[1])
                             kit.env.log("beat", id=desc["id"])
                             kit._section(desc)
+                    elif op == "spin-adopt":
+                        number = 0
+                        while step[2] is None or number < step[2]:
+                            kit.submit(dict(step[1], id="%s-%d" % (step[1]["id"], number)),
+                                       "adopt")
+                            number += 1
+                            await trio.sleep(0)
                     elif op == "to-thread-call":
                         # a blocking call handed to a helper thread, as trio asks for
                         await trio.to_thread.run_sync(
